@@ -13,8 +13,10 @@
 (*   [k |-> "bool", v |-> BOOLEAN]                                         *)
 (*   [k |-> "list", v |-> Seq(tagged)]                                     *)
 (*   [k |-> "null"]                                                        *)
+(*   [k |-> "map", v |-> [key |-> tagged]]   JSON object                   *)
 (* Expression AST (the fragment the generators are restricted to):         *)
-(*   lit(int|str|bool) | param | lt le gt ge eq ne | and or not | in       *)
+(*   lit(int|str|bool) | param | lt le gt ge eq ne | and or not | in |     *)
+(*   idx (map lookup, literal key) | add                                    *)
 (* Result: "T", "F" or "E" (cannot be evaluated).                          *)
 (***************************************************************************)
 EXTENDS Integers, Sequences, FiniteSets, TLC
@@ -45,6 +47,10 @@ Convert(ty, jv) ==
     [] ty = "list<int>" ->
           IF jv.k = "list" /\ \A i \in DOMAIN jv.v : Convert("int", jv.v[i]) # Err
           THEN [k |-> "list", v |-> [i \in DOMAIN jv.v |-> Convert("int", jv.v[i]).v]] ELSE Err
+    [] ty \in {"map<int>", "map<string>"} ->
+          LET ety == IF ty = "map<int>" THEN "int" ELSE "string" IN
+          IF jv.k = "map" /\ \A f \in DOMAIN jv.v : Convert(ety, jv.v[f]) # Err
+          THEN [k |-> "map", v |-> [f \in DOMAIN jv.v |-> Convert(ety, jv.v[f]).v]] ELSE Err
     [] OTHER -> Err
 
 ParamTy(c, p) == (CHOOSE x \in CSeqToSet(c.params) : x.n = p).ty
@@ -76,6 +82,12 @@ EvalX(x, env) ==
          ELSE IF a.k = "err" \/ b.k = "err" THEN Err ELSE [k |-> "bool", v |-> FALSE]
     [] x.k = "not" ->
          LET a == EvalX(x.a, env) IN IF a.k = "err" THEN Err ELSE [k |-> "bool", v |-> ~a.v]
+    [] x.k = "idx" ->       \* map lookup with the literal key x.n; an absent key cannot be evaluated
+         LET a == EvalX(x.a, env) IN
+         IF a.k = "err" \/ x.n \notin DOMAIN a.v THEN Err ELSE [k |-> "elem", v |-> a.v[x.n]]
+    [] x.k = "add" ->
+         LET a == EvalX(x.a, env) b == EvalX(x.b, env) IN
+         IF a.k = "err" \/ b.k = "err" THEN Err ELSE [k |-> "int", v |-> a.v + b.v]
     [] x.k = "in" ->
          LET a == EvalX(x.a, env) b == EvalX(x.b, env) IN
          IF a.k = "err" \/ b.k = "err" THEN Err
